@@ -37,3 +37,38 @@ func VerifC31_atomic() {
 	}
 	verifrt.Reach("C31.atomic.end")
 }
+
+// VerifC31_again: a save that is interrupted, the restart, and the next save. The first save
+// (5 bytes over a 3-byte session) crashes at any point with any loss; after the restart a shorter
+// session (4 bytes) is saved — to completion in the quick tier, with a second arbitrary crash in
+// the thorough tier. Claims: the session file then holds a complete session (the old one, the
+// first or the second new one), and exactly the second one when its save completed — whatever
+// the interrupted save left lying around.
+func VerifC31_again() {
+	old := verifrt.NondetBytes("old", 3)
+	first := verifrt.NondetBytes("first", 5)
+	second := verifrt.NondetBytes("second", 4)
+	path := verifrt.FSPath("session.json")
+	verifrt.FSInit(path, old)
+	st := &FileStorage{Path: path}
+	crashed1 := verifrt.Crash(func() { _ = st.StoreSession(context.Background(), first) })
+	verifrt.FSRestart()
+	st = &FileStorage{Path: path}
+	var err error
+	crashed2 := false
+	if verifrt.Tier() == 1 {
+		crashed2 = verifrt.Crash(func() { err = st.StoreSession(context.Background(), second) })
+	} else {
+		err = st.StoreSession(context.Background(), second)
+	}
+	got, exists := verifrt.FSDurable(path)
+	verifrt.Assert(exists, "C31.again.exists")
+	verifrt.Assert(string(got) == string(old) || string(got) == string(first) || string(got) == string(second), "C31.again.complete")
+	if !crashed2 {
+		verifrt.Assert(err == nil && string(got) == string(second), "C31.again.stored")
+	}
+	if crashed1 {
+		verifrt.Reach("C31.again.interrupted")
+	}
+	verifrt.Reach("C31.again.end")
+}
